@@ -222,7 +222,7 @@ func TestVerif_C10(t *testing.T) {
 			alphabet = append(alphabet, c10op{Kind: "del", Key: k})
 		}
 		alphabet = append(alphabet, c10op{Kind: "flush"}, c10op{Kind: "tick"})
-		depth := vrun.Pick(r, 6, 8)
+		depth := vrun.Pick(r, 6, 12)
 		r.Bounds["depth"] = depth
 		r.Bounds["alphabet"] = len(alphabet)
 		r.Bounds["max_bytes"] = max
